@@ -161,7 +161,7 @@ func Explore(P *Program, cfg *HarnessCfg, nWorkers int, solverKind string, timeo
 			}()
 			s3 := func() *Solver {
 				if solver3 == nil && solver2 != nil {
-					solver3, _ = NewSolver(solverKind, 3*timeoutMs)
+					solver3, _ = NewSolver(solverKind, 2*timeoutMs)
 				}
 				return solver3
 			}
@@ -187,7 +187,7 @@ func Explore(P *Program, cfg *HarnessCfg, nWorkers int, solverKind string, timeo
 					wantW = true
 				}
 				mu.Unlock()
-				pr := runOnePath(P, cfg, entry, solver, solver2, s3, it.prefix, wantW)
+				pr := runOnePath(P, cfg, entry, solver, solver2, s3, deadline, it.prefix, wantW)
 
 				mu.Lock()
 				active--
@@ -321,9 +321,9 @@ type pathResult struct {
 	kfModels    map[string]map[string]interface{}
 }
 
-func runOnePath(P *Program, cfg *HarnessCfg, entry *ssa.Function, solver, solver2 *Solver, solver3 func() *Solver, prefix []int, wantWitness bool) (pr pathResult) {
+func runOnePath(P *Program, cfg *HarnessCfg, entry *ssa.Function, solver, solver2 *Solver, solver3 func() *Solver, deadline time.Time, prefix []int, wantWitness bool) (pr pathResult) {
 	ex := &Exec{
-		P: P, ctx: NewCtx(), solver: solver, solver2: solver2, solver3: solver3, cfg: cfg, entry: entry, prefix: prefix,
+		P: P, ctx: NewCtx(), solver: solver, solver2: solver2, solver3: solver3, deadline: deadline, cfg: cfg, entry: entry, prefix: prefix,
 		globals: map[*ssa.Global]*Object{}, mutexes: map[string]*MutexState{},
 		tagCount: map[string]int{}, covers: map[string]bool{}, fnsSeen: map[*ssa.Function]int{},
 		pools: map[string][]Value{}, idxMemo: map[string]*Term{}, maxOf: map[*Object]int{},
